@@ -428,7 +428,7 @@ class KexGroupExchange(KexDH):
 
         # A private exponent can only be chosen when the modulus is large enough; refuse degenerate groups.
         if p < 7 or g < 1:
-            raise KexDHException("Invalid modulus (%d) or generator (%d) received during GEX init." % (p, g))
+            raise KexDHException("Invalid modulus (%d bits) or generator (%d bits) received during GEX init." % (p.bit_length(), g.bit_length()))  # (Sizes, not values: a number of thousands of digits cannot even be formatted.)
 
         # The time our own exponentiation takes grows with the cube of the modulus size, and the connection timeout does not cover it.  No implementation hands out more than 8192 bits; refuse anything beyond twice that.
         if p.bit_length() > 16384:
